@@ -1298,6 +1298,11 @@ def gen_openlist(rng, directed=True, m=None, rich=False, huge=False):
         V = rng.randint(1, 12) * rng.choice(HUGE_K) * rng.choice([1, n, n + 1, 20])
     if rich and jf is not None and Fraction(jf).denominator > 1000 and vtype != 'D':
         V = Fraction(jf).denominator * rng.randint(1, 12) * rng.choice([1, 1, n + 1, 10 ** 20])   # t*V integral
+    if rich and quota is not None and Fraction(qf).denominator > 1000 and vtype != 'D':
+        # quota * quota_fraction integral: somebody can sit exactly on it
+        V = Fraction(qf).denominator * n * (n + 1) * (n + 2) * rng.randint(1, 12) * rng.choice([1, 1, 10 ** 20])
+        if jf is not None and rng.random() < 0.5:
+            case['jump_fraction'], jf = None, None
     thr = open_threshold(case, Fraction(V))
     voters = list(ids)
     if rng.random() < 0.2 and m > 1:
@@ -1903,7 +1908,7 @@ def generate(rng, tier):
         yield _posthoc_tags(c)
 
 
-RULE = ('Constructed boundary inputs: for t = p/q totals q*k (k up to 12*10^20) with one candidate exactly on p*k, optionally a '
+RULE = ('[audit dimensions, see AUDIT] Constructed boundary inputs: for t = p/q totals q*k (k up to 12*10^20) with one candidate exactly on p*k, optionally a '
         'second one, and near misses p*k+1 / p*k-1; thresholds as Fraction, Decimal and int; counts int, Fraction, Decimal; '
         '1-8 candidates.  Selector trees of depth <= 3 over AbsoluteThreshold, RelativeThreshold, AlternativeThresholds, '
         'CoalitionMemberBracketer, PropertyBracketer (properties dict and getattr path, None evaluators), '
@@ -1915,7 +1920,10 @@ RULE = ('Constructed boundary inputs: for t = p/q totals q*k (k up to 12*10^20) 
         'scopes (thresholds over {0..3}^<=4 on every attainable share; open lists of <=4 members over {0,1,2} votes with '
         'all switches).  Non-trivial = not an error and at least two candidates.')
 NOT_VERIFIED = ['dict insertion order is the protocol order (CPython dict semantics)',
-                'Decimal/Fraction/int comparison and arithmetic are exact rational operations; inputs whose numeric types '
+                'Decimal/Fraction/int/float COMPARISON is exact; ARITHMETIC on Decimal / float parameters of ThresholdOpenList '
+                '(total*jump_fraction, quota*quota_fraction) is exact only while the product fits the Decimal context (28 digits) / '
+                'a double — beyond that the implementation deviates (open finding C16-openlist-decimal-context-rounding; such cases '
+                'are generated, tagged decimal_context_inexact and matched by signature); inputs whose numeric types '
                 'cannot be combined in Python (Fraction*Decimal, Fraction(Decimal, ...)) are outside the model',
                 'AlternativeThresholds: iteration order of the frozenset of results (order among equal mean ranks) — '
                 'compared up to permutation within equal mean ranks',
@@ -1924,6 +1932,15 @@ NOT_VERIFIED = ['dict insertion order is the protocol order (CPython dict semant
                 'accepts_prev_gains / accepts_seats (inspect.signature) are modelled by the class of the selector',
                 'ThresholdOpenList with n_seats = 0 (the quota functions divide by zero) is outside the modelled domain',
                 'hasattr/getattr access to candidate properties is modelled as a function candidate -> optional value']
+AUDIT = ('Generator audit against harness/GENERATOR_CHECKLIST.md: thresholds / jump_fraction / quota_fraction as int, Fraction '
+         '(denominators > 10^6), Decimal (7+ decimals), float (dyadic and not; float jump/quota fractions only where the float '
+         'product is exact), the falsy 0 / Fraction(0) / Decimal(0) / 0.0, each with a candidate exactly on the boundary; float '
+         'counts for AbsoluteThreshold; totals 2^53-1 .. 10^60 with a candidate on and one vote off the boundary; naming modes '
+         'str / int0 / empty0 / person for every class (plain candidates of selector trees included); ties of 3+ with 2+ seats '
+         'drawn; 2+ zero-vote candidates; previous gains for absentees; lists and votes naming different people; n above the '
+         'list length; the same object evaluated twice (other inputs first, after an exception, after a differently configured '
+         'object); every constructor parameter non-default with a sens:<param> tag when it changes the outcome; property name '
+         'other than the usual one with decoy values under the other name.')
 EXHAUSTIVE = {'thorough': True}
 UNPROVED = []
 TECHNIQUE = ('Lean 4 proofs (unbounded) about executable models of threshold.py, openlist.py, QuotaSelector and Tie.break_by_list '
